@@ -185,6 +185,14 @@ func (g *XGen) leaf() reflect.Type {
 				if o.TextU && r.Chance(1, 4) {
 					return reflect.PtrTo(tTUp)
 				}
+				switch r.Intn(8) {
+				case 0: // user-declared pointer to a slice / map / pointer
+					return reflect.PtrTo(reflect.SliceOf(g.basic()))
+				case 1:
+					return reflect.PtrTo(reflect.MapOf(reflect.TypeOf(""), g.basic()))
+				case 2:
+					return reflect.PtrTo(reflect.PtrTo(g.basic()))
+				}
 				return reflect.PtrTo(g.basic())
 			}
 		default:
